@@ -349,6 +349,7 @@ fn drive(sim: &mut Sim, prof: &Profile, rng: &mut Rng, rep: &mut Report, ctype: 
 		}
 	}
 	let mut disconnected: Vec<(usize, usize)> = vec![];
+	let mut expired_done = false;
 	let mut mined = 0u32;
 	for _s in 0..prof.steps {
 		sim.w.step += 1;
@@ -747,6 +748,12 @@ fn drive(sim: &mut Sim, prof: &Profile, rng: &mut Rng, rep: &mut Report, ctype: 
 				let other_reg = sim.w.regs.iter().rev().find(|r| r.dst == dst).map(|r| r.idx);
 				let staged: Option<usize> = sim.w.payments.iter().rev().find(|p| p.class == "staged-mpp" && p.dst == dst && p.src == src && sim.w.step - p.step < 40 && !sim.w.payments.iter().any(|q| q.reg == p.reg && q.class == "staged-mpp-2")).map(|p| p.idx);
 				let opts = match rng.below(8) {
+					// (once per run, while nothing is on chain: fifteen blocks pass; MIN_FINAL_CLTV_EXPIRY_DELTA is 42)
+					0 | 1 if !expired_done && sim.w.chans.iter().all(|c| !c.closed) && rng.chance(1, 3) => {
+						expired_done = true;
+						rep.count("c04_expired_secret_sends");
+						SendOpts { expired: Some(if rng.chance(2, 3) { Some(*rng.pick(&[45u16, 60, 80])) } else { None }), class: "expired-secret", ..Default::default() }
+					},
 					0 => SendOpts { secret_flip: Some(rng.below(256) as u8), class: "wrong-secret", ..Default::default() },
 					1 if other_reg.is_some() => SendOpts { secret_of_reg: other_reg, class: "foreign-secret", ..Default::default() },
 					2 => SendOpts { min_value: Some(amt + *rng.pick(&[1u64, 2, 1000, amt])), class: "underpaid", ..Default::default() },
